@@ -8,7 +8,11 @@ from ufo import build, err_kind
 ID = "C17"
 THEOREM = ("Ufo2ft.C17.C17_subsequence / C17_run / C17_write / C17_place / C17_skip / C17_collect / C17_case / "
            "C17_gsub_first / C17_ellipsis / C17_gsub_inv_partial / C17_gdef_gen / C17_gdef_place / C17_gdef_step / "
-           "C17_gdef_keeps_carets / C17_gdef_keeps_classes")
+           "C17_gdef_keeps_carets / C17_gdef_keeps_classes / "
+           "totality (Props/C17Total.lean): placeMarked_error_iff / C17_write_error_iff / C17_write_returns_iff / "
+           "C17_run_error_iff / C17_run_returns_iff / C17_run_error_where / C17_run_returns_of_tags / "
+           "C17_subsequence_total / C17_place_total / C17_write_total / C17_run_total")
+PROOF_FILES = ["C17", "C17Total"]
 N = {"quick": 2000, "thorough": 30000}
 RULE = ("probe stream (60%): random feature files (languagesystems, class/anchor definitions, comments, top-level lookup blocks - some "
         "with GDEF-relative lookup flags - and GDEF table blocks, GSUB and GPOS feature blocks, some useExtension, whose bodies mix "
@@ -851,7 +855,7 @@ def classify_failure(res):
     return None
 
 
-LEVEL_TEXT = ("Proved for all inputs (Lean, 128 theorems/lemmas): for any feature file and any sequence of writers, after every writer "
+LEVEL_TEXT = ("Proved for all inputs (Lean, 162 theorems/lemmas): for any feature file and any sequence of writers, after every writer "
               "the file - with generated statements, comments inside feature blocks (the markers are such) and the boundaries of "
               "split-made blocks erased - reads exactly as the user's file (C17_subsequence, no well-formedness needed); for "
               "files whose comment objects are distinct and writers whose feature blocks are distinct, every step satisfies the "
@@ -865,7 +869,9 @@ LEVEL_TEXT = ("Proved for all inputs (Lean, 128 theorems/lemmas): for any featur
               "of the user's blocks holds a ligature caret statement of either form (by position or by contour point index), nothing "
               "else (C17_gdef_gen, C17_gdef_keeps_carets/_classes - without restriction on where in the file the hand-written "
               "statement stands; the old first-block-only scan is kept as a refuted counterexample), appended after the user's "
-              "statements of the first such block or in one new table at the end of the file (C17_gdef_place, C17_gdef_step; both are part of C17_run).  The model is tied to the code by differential runs at the level of AST objects "
+              "statements of the first such block or in one new table at the end of the file (C17_gdef_place, C17_gdef_step; both are part of C17_run); on well-formed files the writer loop raises exactly when some writer hands _insert two "
+              "blocks of one tag that has a marker, otherwise it returns and all of the above holds of what it returns "
+              "(C17_run_error_iff, C17_run_total).  The model is tied to the code by differential runs at the level of AST objects "
               "(user-defined writers and recording subclasses of the shipped ones) and through compileTTF's debugFeatureFile.")
 LEVEL_NOTE = ("Trusted: Lean kernel + propext/Classical.choice/Quot.sound; the hand-written model's correspondence to "
               "baseFeatureWriter.py / featureCompiler.py is differential (bounded by the generators); GSUB invariance (writers vs "
@@ -873,6 +879,13 @@ LEVEL_NOTE = ("Trusted: Lean kernel + propext/Classical.choice/Quot.sound; the h
               "(C17_gsub_inv_partial); that the compiled GDEF carets / glyph classes are the hand-written ones (same with and "
               "without writers) is likewise only measured - predicate-only flags evaluated on observed data, feaLib turns the "
               "feature text into the binary; comments inside feature blocks are not part of the preserved skeleton (the code deletes "
-              "a comment-only block that holds a marker together with its other comments); that the model never raises on "
-              "well-formed input is not proved (theorems are stated for runs that return), the one modelled error (the same tag "
-              "handed to _insert twice with a marker -> ValueError) is compared by the correspondence.")
+              "a comment-only block that holds a marker together with its other comments); totality is proved for well-formed files (comment objects distinct - what the parser gives and every writer "
+              "keeps): a writer raises (ValueError, the model's only exception) exactly when, among the feature blocks it hands to "
+              "_insert that have a marker in the user's file, two carry the same tag (writeErrs, decidable on the input; "
+              "C17_write_error_iff), the writer loop raises exactly at the first such writer (C17_run_error_iff/_where), never "
+              "for writers with distinct tags (C17_run_returns_of_tags), `min(indices)` never sees an empty list, and the headline "
+              "theorems hold without the 'run returned' hypothesis (C17_subsequence_total, C17_place_total, C17_write_total, "
+              "C17_run_total: the run returns one file per writer AND the property holds).  Not covered: files in which one "
+              "comment id occurs twice (no Python counterpart; there writeErrs is refuted by an example and the theorems for runs "
+              "that return remain); exceptions outside the model (feaLib rejecting the text, errors inside the shipped writers' "
+              "own _write before _insert) - the error case itself is compared by the correspondence.")
